@@ -83,8 +83,8 @@ func init() {
 				cb := cb
 				_ = sf.F.AddWriteApprovalCallback(func(msg *api.Message) {
 					var x *c12rWrite
-					if cd, err := msg.Cmd.Data(); err == nil {
-						c := CanonAny(cd.Value)
+					if _, cv := cmdFunction(msg.Cmd); cv != nil {
+						c := CanonAny(cv)
 						for _, y := range []*c12rWrite{d.w1, d.w2} {
 							if y.canon == c {
 								x = y
@@ -134,7 +134,7 @@ func init() {
 				p.Conn.BeforeDeliver = func(del *Delivery) {
 					for _, x := range []*c12rWrite{d.w1, d.w2} {
 						if del.D != nil && len(del.D.Payload.Cmd) > 0 && x.t0 == 0 {
-							if cd, err := del.D.Payload.Cmd[0].Data(); err == nil && CanonAny(cd.Value) == x.canon {
+							if _, cv := cmdFunction(del.D.Payload.Cmd[0]); cv != nil && CanonAny(cv) == x.canon {
 								x.t0 = w.Now() + 1
 								d.cur = x
 							}
